@@ -314,3 +314,52 @@ def sh5(ctx: Ctx):
                    "treated as absent", where(fi, node), sample="controls only a raise (argument-presence test)")
     ctx.instance(rule)
     ctx.ob(rule, "<package>", "truthiness tests on ports", True, sample=f"{n} test(s) inspected", nontrivial=False)
+
+
+def prt5(ctx: Ctx):
+    """PRT5: the ValueError with which the authority splitter rejects a non-numeric or out-of-range port is never swallowed. A
+    caller may translate it (a handler that ends in `raise` on every path), but a handler that goes on - with a default, with
+    the port text cut off - turns 'rejected with ValueError' into 'port absent': the lazily split URLs (encoded=True, build
+    (authority=..., encoded=True), derived URLs) would report the scheme default for a junk port."""
+    model = ctx.model
+    rule = "PRT5"
+    ctx.rule(rule, floor=2, what="no caller of split_netloc swallows its ValueError")
+
+    def ends_in_raise(body):
+        if not body:
+            return False
+        last = body[-1]
+        if isinstance(last, ast.Raise):
+            return True
+        if isinstance(last, ast.If):
+            return ends_in_raise(last.body) and ends_in_raise(last.orelse)
+        return False
+
+    n = 0
+    for fi in pkg_funcs(model):
+        r = analyze(model, fi)
+        seen = set()
+        for e in r.by_kind("call"):
+            if not (e.func[0] == "global" and e.func[2] == "split_netloc") or id(e.node) in seen:
+                continue
+            seen.add(id(e.node))
+            n += 1
+            ctx.instance(rule)
+            p_, swallowing = getattr(e.node, "_parent", None), None
+            child = e.node
+            while p_ is not None and not isinstance(p_, (ast.FunctionDef, ast.Lambda)):
+                if isinstance(p_, ast.Try) and child in p_.body:
+                    for h in p_.handlers:
+                        names = {x.id for x in ast.walk(h.type) if isinstance(x, ast.Name)} if h.type is not None else {"BaseException"}
+                        if names & {"ValueError", "Exception", "BaseException"} and not ends_in_raise(h.body):
+                            swallowing = h
+                if isinstance(p_, ast.With) and any("suppress" in ast.unparse(i.context_expr) and
+                                                    any(x in ast.unparse(i.context_expr) for x in ("ValueError", "Exception")) for i in p_.items):
+                    swallowing = p_
+                child, p_ = p_, getattr(p_, "_parent", None)
+            ctx.ob(rule, fi.qual, f"split_netloc(...) in {fi.name}", swallowing is None,
+                   "the ValueError of split_netloc (non-numeric or out-of-range port) is caught here and the function goes on: a "
+                   "written port that must be rejected is treated as if none were written", where(fi, swallowing or e.node),
+                   sample="not inside a handler that continues")
+    if not n:
+        raise AnalysisError("PRT5: nobody calls split_netloc (anchor vanished)")
